@@ -64,6 +64,11 @@ type Matrix []SliceU16B
 type Bigs []*big.Int
 type SortedBigs []*big.Int
 type MapLexOff map[uint8]uint8
+
+// MapShared and SliceShared are registered from ONE base TypeSettings, i.e. they share one *ArrayRules (without any rule):
+// using the one type must not change how the other is written or validated.
+type MapShared map[uint8]uint8
+type SliceShared []uint16
 type Times []time.Time
 
 // ---------------------------------------------------------------- structs
@@ -389,6 +394,16 @@ func init() {
 	add("SortedBigs", SortedBigs{})
 	must(api.RegisterTypeSettings(MapLexOff{}, lp(b8).WithLexicalOrdering(false)))
 	add("MapLexOff", MapLexOff{})
+	sharedBase := lp(b8).WithArrayRules(&serix.ArrayRules{})
+	must(api.RegisterTypeSettings(MapShared{}, sharedBase))
+	must(api.RegisterTypeSettings(SliceShared{}, sharedBase))
+	add("MapShared", MapShared{})
+	add("SliceShared", SliceShared{})
+	// (every process of the harness has encoded and decoded a MapShared before it looks at anything else)
+	if b, err := api.Encode(ctx, MapShared{2: 1, 1: 2}); err == nil {
+		var m MapShared
+		_, _ = api.Decode(ctx, b, &m)
+	}
 	must(api.RegisterTypeSettings(Times{}, lp(b8).WithArrayRules(rules(
 		serializer.ArrayValidationModeLexicalOrdering|serializer.ArrayValidationModeNoDuplicates))))
 	add("Times", Times{})
